@@ -108,13 +108,30 @@ def run(ctx):
     else:
         chk.bad(R1, sc.qualname, 'fallthrough', 'an unknown mode no longer raises', where=f'{sc.module.relpath}:{last.lineno}')
     pal = prog.fn('container:Container.pack_all_loose')
+    # path enumeration over the statement that maps the legacy boolean (independent of how the branches are spelled)
     okmap = False
-    for n in walk_local(pal.node):
-        if isinstance(n, ast.If) and norm(n.test).startswith('isinstance(compress') and n.body and isinstance(n.body[0], ast.If):
-            inner = n.body[0]
-            t = [norm(x.value).split('.')[-1] for x in inner.body if isinstance(x, ast.Assign)]
-            f = [norm(x.value).split('.')[-1] for x in inner.orelse if isinstance(x, ast.Assign)]
-            okmap = norm(inner.test) == 'compress' and t == ['YES'] and f == ['NO']
+    from .common import strip_not
+    for n in pal.node.body:
+        if isinstance(n, ast.If) and 'isinstance(compress' in norm(n.test):
+            seen = {}
+            okmap = True
+            for pth in body_paths([n]):
+                facts = {}
+                for x in pth:
+                    if isinstance(x, tuple):
+                        e, pol = strip_not(x[1], x[2])
+                        facts[norm(e)] = pol
+                vals = [norm(x.value).split('.')[-1] for x in pth if isinstance(x, ast.Assign) and isinstance(x.targets[0], ast.Name)]
+                isb = next((v for k, v in facts.items() if k.startswith('isinstance(compress')), None)
+                if isb is True:
+                    want = {True: 'YES', False: 'NO'}.get(facts.get('compress'))
+                    if want is None or vals != [want]:
+                        okmap = False
+                    seen[want] = True
+                elif isb is False:
+                    if vals != ['compress']:
+                        okmap = False
+            okmap = okmap and set(seen) == {'YES', 'NO'}
     if okmap:
         chk.ok(R1, pal.qualname, 'bool -> CompressMode', detail='True -> YES, False -> NO')
     else:
